@@ -178,3 +178,13 @@ package cose
 //@   props C05 C10(sweep)
 //@   sweep bounds,panic,make,nilmem,div
 //@   requires @registered encregistered(alg)
+
+// decoding a COSE header replaces both header maps by new ones holding only what was
+// decoded: nothing of a previously decoded object survives in a reused variable (C13)
+//@ func cose.Header.UnmarshalCBORStream
+//@   params hdr r o flattened
+//@   props C13 C10(sweep)
+//@   sweep bounds,panic,make,nilmem
+//@   invariant loop#1: allochere(hdr.Protected)
+//@   invariant loop#2: allochere(hdr.Protected) && allochere(hdr.Unprotected)
+//@   ensures @newmaps err == nil ==> allochere(hdr.Protected) && allochere(hdr.Unprotected)
